@@ -27,9 +27,10 @@ RecOK == ri > 0 =>
             /\ Is(r.raised, 0, "run.completed")
             /\ Ok(r.raised = 1 \/ (r.n_get_next_imf > 0 /\ r.n_interp_envelope > 0 /\ r.n_get_padded_extrema > 0), "run.every_stage_observed")
             /\ Is(r.caller_opts_untouched, 1, "run.supplied_option_objects_unchanged")
-      [] r.kind = "zero" ->     \* an option value of exactly zero is a supplied value, not "no value": same result as a tiny positive one
-            /\ Is(r.raised, 0, "zero_valued_option.run_completed")
-            /\ Is(r.same, 1, "zero_valued_option.takes_effect_like_any_other_value")
+      [] r.kind = "zero" ->     \* an option value of exactly zero is a supplied value, not "no value": same result as a tiny positive one;
+                                \* an option keeps its effect when the data is expressed in a tiny unit (exact power of two)
+            /\ Is(r.raised, 0, "option_size_leg.run_completed")
+            /\ Is(r.same, 1, "option.takes_effect_whatever_the_size_of_the_numbers_involved")
       [] r.kind = "reuse" ->    \* the caller's option objects are edited in place between two calls: the second call sees the new values
             /\ Is(r.raised, 0, "edited_option_object.run_completed")
             /\ Is(r.same, 1, "edited_option_object.second_call_uses_the_current_values")
